@@ -612,7 +612,7 @@ func runC08FlushVsUpgrade(r *rep.Report) (key, msg string, held bool) {
 func TestC08(t *testing.T) {
 	r := rep.New(t, "C08")
 	defer r.Flush()
-	r.Rule("all candidate scripts over {probe ping, other ping, pong, message, upgrade, noop, garbage, disconnect} up to length 3 (585; length 4 = 4681 in thorough) x candidate {WebSocket, in-memory WebTransport} x timing {plain, during a burst of sends, across heartbeats}, each compared with a reference upgrade state machine: switch iff an upgrade packet arrives on a live candidate, at most once; otherwise candidate closed, session open on polling, not upgrading, usable both ways, and a later conformant upgrade completes; messages on a candidate before the switch never delivered; traffic both ways after a switch; gate lanes: two candidates past the server's gate test, probe on the wire before the session attached its listeners; retry lane: a second candidate entertained across the instant of the failed first candidate's upgrade timer while a third must be refused; real WebTransport over loopback QUIC (fresh session, upgrade, second/late/unknown-sid candidates); after every script no server goroutine may survive 45 s past the end; distinct = (script, candidate, timing)")
+	r.Rule("all candidate scripts over {probe ping, other ping, pong, message, upgrade, noop, garbage, disconnect} up to length 3 (585; length 4 = 4681 in thorough) x candidate {WebSocket, in-memory WebTransport} x timing {plain, during a burst of sends, across heartbeats}, each compared with a reference upgrade state machine: switch iff an upgrade packet arrives on a live candidate, at most once; otherwise candidate closed, session open on polling, not upgrading, usable both ways, and a later conformant upgrade completes; messages on a candidate before the switch never delivered; traffic both ways after a switch; gate lanes: two candidates past the server's gate test, probe on the wire before the session attached its listeners; switch lane: a second candidate connects from inside the switch to the first (listener on the old transport's close event / on the upgrade event) and must be closed, one upgrade event, first candidate usable; retry lane: a second candidate entertained across the instant of the failed first candidate's upgrade timer while a third must be refused; real WebTransport over loopback QUIC (fresh session, upgrade, second/late/unknown-sid candidates); after every script no server goroutine may survive 45 s past the end; distinct = (script, candidate, timing)")
 	r.Assume("the upgrade probe normally reaches the server after MaybeUpgrade has attached its listeners (1 ms of virtual latency); the opposite order is the dedicated lane 'probe-before-listeners'")
 	var scripts [][]string
 	var rec func(prefix []string, depth int)
@@ -684,6 +684,20 @@ func TestC08(t *testing.T) {
 			}
 		}
 	}
+	if r.Lane == 3%r.Lanes {
+		for k := 0; k < r.N(8, 200); k++ {
+			for _, win := range []string{"old-transport-close", "upgrade-event"} {
+				key, msg, reached := runC08CandidateDuringSwitch(win, r)
+				r.Case("candidate-during-switch/"+win, reached)
+				if reached {
+					r.Obs("second_candidate_placed_inside_the_switch:"+win, 1)
+				}
+				if key != "" {
+					r.Violation(key, msg, map[string]any{"lane": "a second candidate connects while the session is switching to the first", "window": win})
+				}
+			}
+		}
+	}
 	if r.Lane == 1%r.Lanes {
 		// the session closes while a candidate is entertained and the upgrade packet lands during
 		// the close (a slow application close listener keeps the window open)
@@ -718,4 +732,143 @@ func TestC08(t *testing.T) {
 			}
 		}
 	}
+}
+
+// runC08CandidateDuringSwitch: while the session is switching to candidate 1 (inside the teardown
+// of the old transport, or inside the 'upgrade' event that announces the new one) a second
+// candidate for the same session connects and tries the whole dance.  The windows are reached
+// through the public API only: a listener on the old transport's own 'close' event (emitted
+// synchronously while the session clears its old transport) and a listener on the session's
+// 'upgrade' event; the listener holds the switching goroutine until candidate 2 has been dealt with.
+func runC08CandidateDuringSwitch(window string, r *rep.Report) (key, msg string, reached bool) {
+	rig.Bubble(r.T(), func() {
+		so := &config.ServerOptions{}
+		so.SetTransports(types.NewSet("polling", "websocket"))
+		so.SetPingInterval(20 * time.Second)
+		w := rig.NewWorld(rig.Options{Server: so})
+		defer w.Finish()
+		cl, err := w.Connect(rig.ClientCfg{Rev: 4, Transport: "polling"})
+		rig.Wait()
+		sock := w.Socket(0)
+		if err != nil || sock == nil {
+			key, msg = "c08-handshake-failed", fmt.Sprint(err)
+			return
+		}
+		sid := sock.Id()
+		cl.StartReader()
+		cand := w.Candidate(sid, 4)
+		if e := cand.DialCandidateWS(); e != nil {
+			key, msg = "c08-handshake-failed", e.Error()
+			return
+		}
+		time.Sleep(time.Millisecond)
+		cand.WSWriteRaw(false, []byte("2probe"))
+		if _, d, e := cand.WS.ReadMessage(); e != nil || string(d) != "3probe" {
+			r.Inconclusive(fmt.Sprintf("candidate-during-switch: no probe pong (%q %v)", d, e))
+			return
+		}
+		cl.Pause()
+		time.Sleep(150 * time.Millisecond)
+		rig.Wait()
+		cand2 := w.Candidate(sid, 4)
+		var second string // what happened to candidate 2
+		var mu sync.Mutex
+		intruder := func(...any) {
+			mu.Lock()
+			already := reached
+			reached = true
+			mu.Unlock()
+			if already {
+				return
+			}
+			done := make(chan string, 1)
+			go func() {
+				if e := cand2.DialCandidateWS(); e != nil {
+					done <- "refused at the handshake: " + e.Error()
+					return
+				}
+				cand2.WSWriteRaw(false, []byte("2probe"))
+				_, d, e := cand2.WS.ReadMessage()
+				if e != nil {
+					done <- "closed"
+					return
+				}
+				if string(d) == "3probe" {
+					cand2.WSWriteRaw(false, []byte("5"))
+				}
+				done <- "answered " + string(d)
+			}()
+			select {
+			case second = <-done:
+			case <-time.After(2 * time.Second):
+				second = "neither answered nor closed within 2 s"
+			}
+		}
+		switch window {
+		case "old-transport-close":
+			sock.Transport().Once("close", intruder)
+		case "upgrade-event":
+			sock.Once("upgrade", intruder)
+		}
+		cand.WSWriteRaw(false, []byte("5"))
+		time.Sleep(3 * time.Second)
+		rig.Wait()
+		if !reached {
+			r.Inconclusive("candidate-during-switch: window " + window + " was not reached")
+			return
+		}
+		ups := w.Tap.Of(sid, "upgrade")
+		if len(ups) != 1 {
+			key, msg = "c08-second-switch", fmt.Sprintf("a second candidate that connected while the session was switching to the first one (window %s; it was %s): %d upgrade events", window, second, len(ups))
+			return
+		}
+		if strings.HasPrefix(second, "answered 3probe") {
+			key, msg = "c08-two-candidates-entertained", fmt.Sprintf("a second candidate that connected while the session was switching to the first one (window %s) was answered with a probe pong", window)
+			return
+		}
+		if sock.ReadyState() != "open" || !sock.Upgraded() || sock.Upgrading() || sock.Transport().Name() != "websocket" {
+			key, msg = "c08-conformant-upgrade-not-completed", fmt.Sprintf("second candidate during the switch (window %s; it was %s): session %s, Upgraded()=%v, Upgrading()=%v, transport %s", window, second, sock.ReadyState(), sock.Upgraded(), sock.Upgrading(), sock.Transport().Name())
+			return
+		}
+		// the first candidate is the session's transport, both ways
+		cand.Cfg.Transport = "websocket"
+		cand.StartReader()
+		sock.Send(types.NewStringBufferString("after-upgrade"), nil, nil)
+		cand.Send(refcodec.Text(refcodec.Message, "from-client"))
+		time.Sleep(5 * time.Millisecond)
+		rig.Wait()
+		okS, okC := false, false
+		for _, m := range cand.Messages() {
+			if string(m.P.Data) == "after-upgrade" {
+				okS = true
+			}
+		}
+		for _, e := range w.Tap.Of(sid, "message") {
+			if e.Str == "from-client" {
+				okC = true
+			}
+		}
+		if !okS || !okC {
+			key, msg = "c08-upgraded-session-unusable", fmt.Sprintf("second candidate during the switch (window %s; it was %s): server->client %v, client->server %v on the first candidate's connection", window, second, okS, okC)
+			return
+		}
+		// the second candidate must be closed by now
+		if cand2.WS != nil && second != "closed" {
+			cand2.WS.SetReadDeadline(time.Now().Add(time.Millisecond))
+			closed := false
+			for i := 0; i < 10; i++ {
+				if _, _, err := cand2.WS.ReadMessage(); err != nil {
+					closed = !strings.Contains(err.Error(), "timeout")
+					break
+				}
+			}
+			if !closed {
+				key, msg = "c08-failed-candidate-left-open", fmt.Sprintf("the second candidate (window %s; it was %s) is still open 3 s later", window, second)
+				return
+			}
+		}
+		cand.Stop()
+		cl.Stop()
+	})
+	return
 }
